@@ -33,5 +33,5 @@ fuzz_target!(|data: &[u8]| {
     let p = String::from_utf8(unhex(it.next().unwrap_or("e"))).unwrap_or_default();
     let mt = router.match_route(&khttp::Method::from(m), &p);
     let np = mt.params.iter().count() as u64;
-    feature(&[n, (*mt.route + 1) as u64, np, p.matches('/').count().min(6) as u64]);
+    feature(&[n, (*mt.route + 1) as u64, np.min(9), p.matches('/').count().min(9) as u64]);
 });
